@@ -396,12 +396,16 @@ func (c *ctx) run() int {
 				stopping = true
 			}
 			if r.abnormal {
+				if plan.CrashIsViolation {
+					// the crash itself is the finding: do not start further shards
+					stopping = true
+				}
 				cr := crashRec{Shard: spec.Name, Idx: r.idx, TimedOut: r.timedOut, Exit: r.exit, LogTail: tail(r.log, 4000)}
 				if r.havePay {
 					cr.Payload = base64.StdEncoding.EncodeToString(r.payload)
 				}
 				// resume a range shard behind the index in flight
-				if spec.Range && r.idx >= spec.Lo && r.idx+1 <= spec.Hi && len(crashes) < 50 {
+				if spec.Range && !plan.CrashIsViolation && r.idx >= spec.Lo && r.idx+1 <= spec.Hi && len(crashes) < 50 {
 					cr.Resumed = true
 					if r.idx+1 < spec.Hi {
 						next := spec
@@ -522,6 +526,7 @@ func (c *ctx) merge(plan *ev.Plan, results []shardResult, crashes []crashRec, bi
 	var lines []string
 	replayDir := filepath.Join(c.root, "replays", c.id)
 	blocked, unrecovered := 0, 0
+	confirmed := false
 	for _, cr := range crashes {
 		if !cr.Resumed {
 			unrecovered++
@@ -536,8 +541,14 @@ func (c *ctx) merge(plan *ev.Plan, results []shardResult, crashes []crashRec, bi
 			}
 			v := ev.Violation{Property: c.id, Kind: plan.ReplayKindCrash, Sig: "process-" + strings.Fields(what)[0], Size: len(payload),
 				Msg: fmt.Sprintf("worker process %s while executing the case in flight (exit %d); log tail:\n%s", what, cr.Exit, tail(cr.LogTail, 1500)), Case: data}
-			// confirm solo: the replay must die as well, otherwise the crash is not attributable
+			// confirm solo: the replay must die as well, otherwise the crash is not attributable;
+			// one confirmed witness per run is enough (each confirmation may take the full replay deadline)
+			if confirmed {
+				notes = append(notes, fmt.Sprintf("shard %s also died abnormally (exit %d, timeout %v)", cr.Shard, cr.Exit, cr.TimedOut))
+				continue
+			}
 			if c.confirmCrash(bin, v) {
+				confirmed = true
 				vios = append(vios, v)
 			} else {
 				blocked++
@@ -674,7 +685,7 @@ func (c *ctx) confirmCrash(bin string, v ev.Violation) bool {
 	path := filepath.Join(c.work, "confirm.json")
 	data, _ := json.Marshal(v)
 	_ = os.WriteFile(path, data, 0o644)
-	code, _ := c.replayFile(bin, path, 60*time.Second)
+	code, _ := c.replayFile(bin, path, 45*time.Second)
 	return code != 0
 }
 
